@@ -2003,6 +2003,13 @@ class MZgate(Gate):
     def __init__(self, phi_in, phi_ex):
         super().__init__([phi_in, phi_ex])
 
+    def apply(self, reg, backend, **kwargs):
+        # phi_in = 0 is not the identity for a Mach-Zehnder gate (it is a swap up to phases),
+        # so the p[0] == 0 shortcut of Gate.apply must not be taken
+        if not self.dagger and np.all(self.p[0] == 0):
+            return Operation.apply(self, reg, backend, **kwargs)
+        return super().apply(reg, backend, **kwargs)
+
     def _apply(self, reg, backend, **kwargs):
         phi_in, phi_ex = par_evaluate(self.p)
         backend.mzgate(phi_in, phi_ex, *reg)
